@@ -1,6 +1,7 @@
 package zv
 
 import (
+	"go/ast"
 	"go/types"
 	"go/constant"
 	"strconv"
@@ -387,12 +388,14 @@ func c16Grammar(c *Ctx, fn *ssa.Function) {
 	seqs, trunc := ConcPaths(fn, ConcCfg{
 		MaxIter: 3, Cut: &cut, Prune: true, MaxStates: 400000,
 		Inline: func(h *ssa.Function) bool {
-			if rn := RecvNamed(h); rn != nil && rn.Obj().Name() == "jsonEncoder" {
+			switch h.Name() {
+			case "addFields", "putJSONEncoder", "getSliceEncoder", "putSliceEncoder", "closeOpenNamespaces":
 				return false
 			}
-			switch h.Name() {
-			case "addFields", "putJSONEncoder", "getSliceEncoder", "putSliceEncoder":
-				return false
+			if rn := RecvNamed(h); rn != nil && rn.Obj().Name() == "jsonEncoder" {
+				// a method of the JSON encoder is explored only when it is a wrapper around the steps this rule
+				// watches (addFields, closeOpenNamespaces, the release of the clone); its own encoding work is not
+				return jsonStepWrapper(h, 0)
 			}
 			return true
 		},
@@ -726,4 +729,26 @@ func c16Constructor(c *Ctx, rule string) {
 		c.Check(len(badStores) == 0 && nRet > 0, rule, fn.String(), "keeps-configuration", fn.Pos(), "the constructor changes nothing of the configuration it was given except LineEnding, NewReflectedEncoder and ConsoleSeparator (a sub-encoder that is nil stays nil: it decides whether a console column exists): %v", badStores)
 		c.Check(len(badLE) == 0, rule, fn.String(), "effective-line-ending", fn.Pos(), "the effective line ending is \"\" with SkipLineEnding, the default for an empty LineEnding, LineEnding itself otherwise: %v", badLE)
 	}
+}
+
+// jsonStepWrapper: h (a method of jsonEncoder) calls - directly or through another such wrapper - addFields,
+// closeOpenNamespaces or putJSONEncoder, and is not one of the encoder's interface methods.
+func jsonStepWrapper(h *ssa.Function, d int) bool {
+	if d > 3 || ast.IsExported(h.Name()) || h.Name() == "clone" {
+		return false
+	}
+	for _, cl := range Calls(h) {
+		sc := StaticCallee(cl)
+		if sc == nil {
+			continue
+		}
+		switch sc.Name() {
+		case "addFields", "closeOpenNamespaces", "putJSONEncoder":
+			return true
+		}
+		if rn := RecvNamed(sc); rn != nil && rn.Obj().Name() == "jsonEncoder" && jsonStepWrapper(sc, d+1) {
+			return true
+		}
+	}
+	return false
 }
